@@ -66,7 +66,7 @@ Ref(d, pt, fb) == [d |-> d, pt |-> pt, fb |-> fb]
 \* small sub-domain for the exhaustive mode: indices into Descs / PTs / FBs
 SmallLocal  == { Ref(1, 2, 3), Ref(4, 3, 2), Ref(11, 5, 3), Ref(20, 3, 1), Ref(23, 3, 1), Ref(30, 6, 1), Ref(7, 4, 2) }
 SmallRemote == { Ref(1, 2, 4), Ref(2, 4, 2), Ref(5, 5, 3), Ref(12, 5, 2), Ref(13, 2, 2), Ref(20, 3, 1), Ref(21, 4, 1),
-                 Ref(24, 3, 1), Ref(31, 6, 2), Ref(8, 4, 3) }
+                 Ref(24, 3, 1), Ref(31, 6, 2), Ref(8, 4, 3), Ref(NBoth - 3, 5, 2) }    \* last: H264 42001f
 SeqsUpTo(S, n) == UNION {[1..k -> S] : k \in 0..n}
 
 \* The remote never offers payload type 0 (PTs[1]): pion/sdp treats 0, 8 and 9 as the static
@@ -82,7 +82,7 @@ RandLocal(k) == [i \in 1..RandomElement(0..MaxLocal) |-> RandRef(NDesc)] \o <<>>
 RandRemote(loc0) == [i \in 1..RandomElement(1..MaxRemote) |->
                     IF loc0 # <<>> /\ RandomElement(1..2) = 1 THEN Near(loc0[RandomElement(1..Len(loc0))]) ELSE RandRefR(NBoth)] \o <<>>
 
-\* Structured vectors (two thirds of the sample): a primary video codec with an RTX codec on both
+\* Structured vectors (a third of the sample): a primary video codec with an RTX codec on both
 \* sides, the apt values mostly referring to the primary, payload types differing or colliding, the
 \* codecs in a random order (an RTX codec listed before its primary is what the second pass is for).
 VideoPrimaries == {i \in 1..NBoth : KindOf(PrepTab[i]) = "video" /\ PrepTab[i].P.mf # "video/rtx"}
@@ -108,7 +108,33 @@ StructVec(k) ==
                                           /\ \A j \in 1..(i - 1) : PrepTab[sp.rem[j].d].P.mf # PrepTab[dp].P.mf
                                        THEN WithPt(sp.rem[i], pr) ELSE sp.rem[i]] \o <<>>]
 FreeVec(k) == LET l0 == RandLocal(k) IN [loc |-> l0, rem |-> RandRemote(l0)]
-RandVec(k) == IF RandomElement(1..3) = 1 THEN FreeVec(k) ELSE StructVec(k)
+
+\* "RTX for some primaries only": two different primary video codecs, the local side registers an
+\* RTX codec for the first one only, the remote offers both with an RTX codec each (payload types
+\* all different on the remote side; half of the time the offered primary is the very descriptor
+\* registered locally, else a re-spelling of it).
+SameOrNear(d) == IF RandomElement(1..2) = 1 THEN d ELSE Near(Ref(d, 1, 1)).d
+TwoWith(d1, d2, lp, qp) ==
+  [loc |-> Shuffle(<< Ref(d1, lp[2], RandFb(Len(FBs))), Ref(RtxIdx(lp[2]), lp[4], 1), Ref(d2, lp[3], RandFb(Len(FBs))) >>),
+   rem |-> Shuffle(<< Ref(SameOrNear(d1), qp[2], RandFb(Len(FBs))), Ref(RtxIdx(qp[2]), qp[4], RandFb(Len(FBs))),
+                      Ref(SameOrNear(d2), qp[3], RandFb(Len(FBs))),
+                      Ref(RtxIdx(qp[3]), RandomElement({qp[5], 6}), RandFb(Len(FBs))) >>)]
+OtherPrimaries(d) == {i \in VideoPrimaries : PrepTab[i].P.mf # PrepTab[d].P.mf}
+TwoFrom(d1) == TwoWith(d1, RandomElement(OtherPrimaries(d1)), RandomElement(Permutations(AptPts)), RandomElement(Permutations(AptPts)))
+TwoVec(k) == TwoFrom(RandomElement(VideoPrimaries))
+
+\* "same profile_idc, other profile-iop": an H264 codec on each side (packetization-mode=1, profiles
+\* drawn independently from 42e0 / 4200 / 6400 / 640c), next to another video codec that both sides
+\* have, so that a true exact match exists
+IopWith(h1, h2, an, lp, qp) ==
+  [loc |-> Shuffle(<< Ref(h1, lp[2], RandFb(Len(FBs))), Ref(an, lp[3], RandFb(Len(FBs))) >>),
+   rem |-> Shuffle(<< Ref(h2, qp[2], RandFb(Len(FBs))), Ref(an, qp[3], RandFb(Len(FBs))), RandRefR(NBoth) >>)]
+IopVec(k) == IopWith(RandomElement(H264Pm1), RandomElement(H264Pm1),
+                     RandomElement({i \in VideoPrimaries : PrepTab[i].P.mf # "video/h264"}),
+                     RandomElement(Permutations(AptPts)), RandomElement(Permutations(AptPts)))
+
+RandVecOf(k, r) == CASE r = 1 -> FreeVec(k) [] r \in {2, 3} -> StructVec(k) [] r \in {4, 5} -> TwoVec(k) [] OTHER -> IopVec(k)
+RandVec(k) == RandVecOf(k, RandomElement(1..6))
 
 Init == stage = "init" /\ id = 0 /\ loc = <<>> /\ rem = <<>> /\ pre = FALSE
 
